@@ -93,7 +93,8 @@ def fold_kernel(call_fn, schema):
         "numerator": schema.coeff_list(schema.num), "denominator": schema.coeff_list(schema.den),
         "numlist": schema.coeff_list(schema.num), "denlist": schema.coeff_list(schema.den),
         # the polynomials, read by delay (self.denpoly[0] is the a[0] of the schema)
-        "numpoly": OrderedDict(schema.num), "denpoly": OrderedDict(schema.den),
+        "numpoly": PolyTokens(schema.num, schema.coeff_list(schema.num)),
+        "denpoly": PolyTokens(schema.den, schema.coeff_list(schema.den)),
     })
 
     def isinst(value, what):
@@ -117,6 +118,28 @@ def fold_kernel(call_fn, schema):
             "la": f.env.get("la"), "lb": f.env.get("lb"), "lm": f.env.get("lm")}
 
 
+class PolyTokens(OrderedDict):
+    """the numerator / denominator polynomial of a schema as the builder may read it: ``p[k]`` is the coefficient of
+    delay k, ``p.values()`` the dense coefficient list (``Poly.values``), ``p.terms()`` the (delay, coefficient) pairs;
+    ``sym``: subscripts give the symbolic text ``self.<name>[k]`` instead of the token (the kernel call site)"""
+    def __init__(self, items, dense, sym=None):
+        OrderedDict.__init__(self, items)
+        self.dense, self.sym = list(dense), sym
+
+    def __getitem__(self, k):
+        if self.sym is not None:
+            t = Token("sym", "%s[%r]" % (self.sym, k), "%s[%r]" % (self.sym, k))
+            t.rf = None
+            return t
+        return OrderedDict.__getitem__(self, k)
+
+    def values(self):
+        return list(self.dense)
+
+    def terms(self):
+        return list(OrderedDict.items(self))
+
+
 class SymSeq(object):
     """an indexable object known only by name: x[k] is the token 'name[k]'"""
     def __init__(self, name):
@@ -137,7 +160,8 @@ def fold_arguments(call_fn, schema):
         "numdict": OrderedDict(schema.num), "dendict": OrderedDict(schema.den),
         "numerator": schema.coeff_list(schema.num), "denominator": schema.coeff_list(schema.den),
         "numlist": schema.coeff_list(schema.num), "denlist": schema.coeff_list(schema.den),
-        "numpoly": SymSeq("self.numpoly"), "denpoly": SymSeq("self.denpoly"),
+        "numpoly": PolyTokens(schema.num, schema.coeff_list(schema.num), sym="self.numpoly"),
+        "denpoly": PolyTokens(schema.den, schema.coeff_list(schema.den), sym="self.denpoly"),
     })
 
     def isinst(value, what):
